@@ -97,6 +97,9 @@ struct Case {
     shape2: Option<usize>,
     reps: usize,
     crlf: bool,
+    /// 0: as is; 1: the planted lines are indented by 1100 further spaces (columns beyond 1024); 2: 300 comment
+    /// lines before; 3: 70000 blank lines before (line numbers beyond 65535)
+    far: u8,
 }
 
 struct Built {
@@ -167,6 +170,20 @@ fn build(c: &Case) -> Option<Built> {
                     }
                 }
             }
+            match c.far {
+                2 => {
+                    for i in 0..300 {
+                        lines.push(format!("{}// filler {}", indent, i));
+                    }
+                }
+                3 => {
+                    for _ in 0..70000 {
+                        lines.push(String::new());
+                    }
+                }
+                _ => {}
+            }
+            let far_indent = if c.far == 1 { " ".repeat(1100) } else { String::new() };
             let first_line = lines.len() + 1;
             let (m, m2) = match fi {
                 0 => ("other", "sub/deep"),
@@ -179,7 +196,7 @@ fn build(c: &Case) -> Option<Built> {
                 if l.starts_with("<<<<<<<") {
                     lines.push(l.to_string());
                 } else {
-                    lines.push(format!("{}{}", indent, l));
+                    lines.push(format!("{}{}{}", far_indent, indent, l));
                 }
             }
             for off in k.lines {
@@ -218,7 +235,7 @@ fn build(c: &Case) -> Option<Built> {
 }
 
 fn control_files() -> Files {
-    let c = Case { kind: 0, file: 0, hole: Hole::Top, shape: 0, shape2: None, reps: 0, crlf: false };
+    let c = Case { kind: 0, file: 0, hole: Hole::Top, shape: 0, shape2: None, reps: 0, crlf: false, far: 0 };
     let mut b = build(&c).unwrap();
     // remove the planted line from main
     let main = b.files.get_mut(MAIN).unwrap();
@@ -277,11 +294,16 @@ pub fn run(run: &mut Run) {
                             if shape == 0 && reps > 1 {
                                 continue;
                             }
-                            cases.push(Case { kind, file, hole, shape, shape2: None, reps, crlf });
+                            cases.push(Case { kind, file, hole, shape, shape2: None, reps, crlf, far: 0 });
+                            if shape == 0 {
+                                for far in 1..=3u8 {
+                                    cases.push(Case { kind, file, hole, shape, shape2: None, reps, crlf, far });
+                                }
+                            }
                             if thorough && shape != 0 {
                                 for s2 in 1..SHAPES.len() {
                                     if s2 != shape && reps <= 2 {
-                                        cases.push(Case { kind, file, hole, shape, shape2: Some(s2), reps, crlf });
+                                        cases.push(Case { kind, file, hole, shape, shape2: Some(s2), reps, crlf, far: 0 });
                                     }
                                 }
                             }
@@ -315,7 +337,7 @@ pub fn run(run: &mut Run) {
             acc.fail(Failure {
                 sig,
                 preds,
-                detail: format!("{} planted in {} ({:?} hole) after {} x{} crlf={}\n{}", KINDS[c.kind].id, FILES[c.file], c.hole, SHAPES[c.shape].0, c.reps, c.crlf, detail),
+                detail: format!("{} planted in {} ({:?} hole) after {} x{} crlf={} far={}\n{}", KINDS[c.kind].id, FILES[c.file], c.hole, SHAPES[c.shape].0, c.reps, c.crlf, ["no", "indented by 1100 spaces", "after 300 comment lines", "after 70000 blank lines"][c.far as usize], detail),
                 case: json!({"engine": "c15", "files": fm, "want_file": b.want_file, "want_lines": b.want_lines}),
                 size: c.reps + if c.shape2.is_some() { 5 } else { 0 } + c.file,
             });
